@@ -129,6 +129,18 @@ def lazify_task(task, start=True):
                 *dependencies,
                 _data_producer=task.data_producer,
             )
+        from dask.graph_manipulation import chunks
+
+        if task.func is chunks.bind and task.args:
+            # bind(node, *deps) returns node itself: node is as much an output
+            # as the bound task is, its reify must stay when the task's would
+            return Task(
+                task.key,
+                task.func,
+                lazify_task(task.args[0], start),
+                *[lazify_task(arg, False) for arg in task.args[1:]],
+                **task.kwargs,
+            )
         return Task(
             task.key,
             task.func,
